@@ -86,6 +86,7 @@ class Monitor:
         self.nesting_checked = 0
         self.nesting_skipped = 0
         self.features = set()
+        self.stash = []  # (target path, incremental entry) waiting for its target to exist
 
     # -- rule helpers ---------------------------------------------------------------------
     def _err(self, rule, what, detail=None):
@@ -93,6 +94,29 @@ class Monitor:
         if not self.lenient:
             raise pe
         self.protocol_errors.append(pe)
+
+    def _apply_stash(self):
+        """Entries whose target did not exist when they arrived (recorded as a rule-3 deviation)
+        are applied as soon as a later entry has created it, so that one deviation does not
+        make everything beneath it look undeliverable as well."""
+        progress = True
+        while progress and self.stash:
+            progress = False
+            for k, (path, inc) in enumerate(self.stash):
+                ok, target = _walk(self.data, path)
+                if "items" in inc:
+                    if ok and isinstance(target, list):
+                        target.extend(copy.deepcopy(inc["items"]))
+                        del self.stash[k]
+                        progress = True
+                        break
+                elif ok and isinstance(target, dict):
+                    conf = deep_merge(target, inc["data"], tuple(path))
+                    if conf:
+                        self.merge_conflicts.append(conf[0])
+                    del self.stash[k]
+                    progress = True
+                    break
 
     def _announce(self, entries):
         for pe in entries:
@@ -185,6 +209,7 @@ class Monitor:
                 ok, target = _walk(self.data, base)
                 if not ok or not isinstance(target, list):
                     self._err(3, "stream_target_not_a_list", {"id": i, "path": base})
+                    self.stash.append((base, inc))  # applied when a later payload creates it
                     continue
                 if inc.get("subPath"):
                     self.features.add("stream_subpath")
@@ -198,6 +223,8 @@ class Monitor:
                 ok, target = _walk(self.data, base + sub)
                 if not ok or not isinstance(target, dict):
                     self._err(3, "defer_target_not_an_object", {"id": i, "path": base + sub})
+                    if isinstance(inc.get("data"), dict):
+                        self.stash.append((base + sub, inc))
                     continue
                 if not isinstance(inc.get("data"), dict):
                     self._err(3, "defer_data_not_an_object", {"id": i})
@@ -208,6 +235,7 @@ class Monitor:
                 self.features.add("defer_data")
             for e in inc.get("errors") or ():
                 self.errors.append((e, "incremental:" + i))
+        self._apply_stash()
         for c in payload.get("completed") or ():
             i = c["id"]
             pe = self.pending.pop(i, None)
